@@ -10,11 +10,18 @@
     library used to drop; repaired by a fix: commit, see known_findings.json)
    * a numeric-index request is a Spec matrix element: determinant-level action of the operator
      string in FQE's convention equals the Spec action through ι                  : C03_element
+   * the rewriting driver of `wick` (work list, passes until nothing changes; Model/Wick.lean, spin-orbital
+     requests): for every pattern, every assignment of orbitals to its letters, every bra functional and
+     determinant, the signed sum over the work list of Π δ · ⟨f| remaining operators |a,b⟩ is the matrix
+     element of the requested pattern — after one step, one pass and the whole loop; a pass that rewrites
+     nothing leaves only normal-ordered entries                                   : C03_wick_step, C03_wick_loop,
+                                                                                    C03_wick_normal_form
   Element-by-element equality of every returned tensor with ⟨bra|pattern|ket⟩ (all orderings, ranks 1–4,
   transition quantities, both paths) is decided by the exact correspondence.
 -/
 import FqeVerif.Lemmas.TermAlgebra
 import FqeVerif.Props.C01
+import FqeVerif.Lemmas.Wick
 namespace C03
 open Fock Model
 
@@ -39,5 +46,31 @@ theorem C03_element (norb : Nat) (t : Term) (a b : Nat) (ht : C01.TermOk norb t)
 
 example : applyTerm [(0, false), (0, true)] 0 0 = some (false, 0, 0) ∧
     applyTerm [(0, true), (0, false)] 0 0 = none := by decide
+
+/-- one rewriting step of the driver (`a_x a†_y → −a†_y a_x + δ_xy`) preserves the matrix element -/
+theorem C03_wick_step (ρ : Nat → Nat) (f : Nat → Nat → Int) (a b : Nat) (it : WItem) :
+    evalList ρ f a b (wstep it) = evalItem ρ f a b it :=
+  wstep_sound ρ f a b it
+
+/-- the whole loop, started from the requested pattern: the work list it ends with has the matrix element of the
+    pattern itself, for every orbital assignment `ρ`, bra functional `f` and determinant `(a, b)` -/
+theorem C03_wick_loop (ρ : Nat → Nat) (f : Nat → Nat → Int) (a b : Nat) (pattern : List (Nat × Bool)) :
+    evalList ρ f a b (wickNormalForm pattern) =
+      C01.evalRes f (applyTerm (pattern.map (fun o => (ρ o.1, o.2))) a b) := by
+  unfold wickNormalForm
+  rw [wnormalize_sound]
+  simp [evalList, evalItem, deltasOk, itemTerm]
+
+/-- when a pass reports that nothing was rewritten, every entry is normal ordered (creators before annihilators),
+    i.e. it is read off the particle RDMs directly -/
+theorem C03_wick_normal_form (l : List WItem) (h : (processOne l).2 = false) :
+    ∀ it ∈ (processOne l).1, isNormal it.ops = true :=
+  processOne_done l h
+
+/-- the fuel of `wickNormalForm` is enough for every pattern the library accepts that was tried here
+    (all dagger placements of rank 2 in identity order): the result is normal ordered -/
+example : ([[false, false, true, true], [false, true, true, false], [true, false, false, true], [false, true, false, true]].all
+    (fun fl => (wickNormalForm (fl.zipIdx.map (fun x => (x.2, x.1)))).all (fun it => isNormal it.ops))) = true := by
+  decide
 
 end C03
